@@ -3,7 +3,9 @@
 # worktree: must FAIL with the patch applied and PASS without it. Writes
 # <seeded-dir>/confirm.txt. Scratch: /tmp/confirm (worktree + shared target dir).
 set -u
-C=/tmp/confirm
+C=${CONFIRM_DIR:-/tmp/confirm}
+# CONFIRM_PROFILE=debug builds the demonstration with the dev profile (quicker to build, slower to run)
+if [ "${CONFIRM_PROFILE:-release}" = debug ]; then REL=""; OUTD=debug; else REL="--release"; OUTD=release; fi
 mkdir -p $C
 if [ ! -e "$C/repo/.git" ]; then git -C /repo worktree add -q --detach "$C/repo" HEAD || exit 2; fi
 for S in "$@"; do
@@ -16,12 +18,12 @@ for S in "$@"; do
   grep -rl "/tmp/wt[0-9]*-c[0-9][0-9]" "$C/demo" --include=Cargo.toml --include='*.rs' --include='*.sh' 2>/dev/null | xargs -r sed -i -E "s#/tmp/wt[0-9]*-c[0-9]+#$C/repo#g"
   [ -f "$C/demo/Cargo.lock" ] || cp /tmp/buildkit/Cargo.lock "$C/demo/Cargo.lock"
   bin=$(grep -m1 -E '^name *= *"' "$C/demo/Cargo.toml" | sed -E 's/.*"(.*)".*/\1/')
-  run() { ( cd "$C/demo" && CARGO_NET_OFFLINE=true RUSTFLAGS="--cfg concordium_base_verif" timeout 2400 cargo build --offline --release --target-dir "$C/target" >"$C/build.log" 2>&1 && timeout 600 "$C/target/release/$bin" >"$C/run.log" 2>&1 ); echo $?; }
+  run() { ( cd "$C/demo" && CARGO_NET_OFFLINE=true RUSTFLAGS="--cfg concordium_base_verif" timeout 2400 cargo build --offline $REL --target-dir "$C/target" >"$C/build.log" 2>&1 || exit 99; timeout ${CONFIRM_RUN_TIMEOUT:-900} "$C/target/$OUTD/$bin" >"$C/run.log" 2>&1 ); echo $?; }
   git -C "$C/repo" apply "$S/patch.diff" || { echo "$name: patch does not apply" | tee -a "$out"; continue; }
   rc_changed=$(run); tail -3 "$C/run.log" > "$C/changed.tail" 2>/dev/null
   git -C "$C/repo" checkout -q -- .
   rc_unchanged=$(run)
-  verdict=NOT-CONFIRMED; [ "$rc_changed" != 0 ] && [ "$rc_unchanged" = 0 ] && verdict=CONFIRMED
+  verdict=NOT-CONFIRMED; [ "$rc_changed" != 0 ] && [ "$rc_changed" != 99 ] && [ "$rc_changed" != 124 ] && [ "$rc_unchanged" = 0 ] && verdict=CONFIRMED
   grep -q "^error" "$C/build.log" && verdict="$verdict(build-error-in-last-build)"
   { echo "$name: demo exit with patch=$rc_changed, without patch=$rc_unchanged => $verdict"; echo "last lines with patch:"; cat "$C/changed.tail" 2>/dev/null; } | tee -a "$out"
 done
